@@ -204,64 +204,99 @@ func scenario(seed int64) (res scenarioResult) {
 	if x := exchange("data", 1+r.Intn(5)); x != nil {
 		return *x
 	}
-	// ---- O3: one SMP run
+	// ---- O3: two or three SMP runs in the same session, in both role orders, after success / failure / no answer;
+	// judged per run by the tracker: the responder is asked once, Complete on both sides iff the secrets of THAT run are equal
 	phase = "smp"
-	ini := []string{"a", "b"}[r.Intn(2)]
-	rsp := peer(ini)
-	equal := r.Intn(2) == 0
-	question := ""
-	if r.Intn(2) == 0 {
-		question = "q-" + strconv.Itoa(r.Intn(1000))
-	}
-	secI := randBody(r, r.Intn(40))
-	secR := secI
-	if !equal {
-		secR = append(append([]byte(nil), secI...), byte(1+r.Intn(255)))
-		if r.Intn(2) == 0 && len(secI) > 0 {
-			secR = append([]byte(nil), secI...)
-			secR[r.Intn(len(secR))] ^= 0x20
+	tr := newSMPTracker()
+	var prevI []byte
+	nruns := 2 + r.Intn(2)
+	for k := 0; k < nruns; k++ {
+		ini := []string{"a", "b"}[r.Intn(2)]
+		rsp := peer(ini)
+		equal := r.Intn(2) == 0
+		question := ""
+		if r.Intn(2) == 0 {
+			question = "q-" + strconv.Itoa(r.Intn(1000))
+		}
+		secI := randBody(r, r.Intn(40))
+		if prevI != nil && r.Intn(3) == 0 {
+			secI = prevI // the initiator repeats the secret of the previous run
+		}
+		secR := secI
+		if !equal {
+			secR = append(append([]byte(nil), secI...), byte(1+r.Intn(255)))
+			if r.Intn(2) == 0 && len(secI) > 0 {
+				secR = append([]byte(nil), secI...)
+				secR[r.Intn(len(secR))] ^= 0x20
+			}
+		}
+		prevI = secI
+		for _, p := range []string{"a", "b"} {
+			s[p].chg, s[p].errs, s[p].dlv = nil, nil, nil
+			w.conv[p].FragmentSize = randFragSize(r)
+		}
+		feed := func() {
+			for _, p := range []string{"a", "b"} {
+				for _, c := range s[p].chg {
+					tr.event(p, c)
+				}
+				s[p].chg = nil
+			}
+		}
+		if sg, wh := tr.auth(ini, string(secI), true); sg != "" {
+			return fail(sg, "%s", wh)
+		}
+		ms, err := w.conv[ini].Authenticate(question, secI)
+		if err != nil {
+			return fail("otr-smp-run:authenticate-error", "Authenticate failed: %v", err)
+		}
+		w.post(ini, ms)
+		w.randomDrain(r, s, 200000)
+		feed()
+		if tr.pending[rsp] {
+			if got := w.conv[rsp].SMPQuestion(); got != question {
+				// observed on the unchanged code: after a completed run the responder keeps the question of that run, and a
+				// later SMP1 without a question does not clear it.  The property does not mention the question: counted.
+				if question == "" && got != "" {
+					res.stats["smp_stale_question_reported"]++
+				} else {
+					return fail("otr-smp-question", "SMPQuestion %q, sent %q", got, question)
+				}
+			}
+			if r.Intn(6) > 0 { // sometimes the responder's user never answers
+				if sg, wh := tr.auth(rsp, string(secR), true); sg != "" {
+					return fail(sg, "%s", wh)
+				}
+				ms, err = w.conv[rsp].Authenticate("", secR)
+				if err != nil {
+					return fail("otr-smp-run:authenticate-error", "responder's Authenticate failed: %v", err)
+				}
+				w.post(rsp, ms)
+				w.randomDrain(r, s, 200000)
+				feed()
+			}
+		}
+		for _, p := range []string{"a", "b"} {
+			for _, d := range s[p].dlv { // an abort TLV that changes nothing looks like an empty message: only text counts
+				if len(d) > 0 {
+					return fail("otr-unexpected-delivery", "%s's user was handed a message of %d bytes during SMP", p, len(d))
+				}
+			}
+		}
+		if sg, wh := tr.finish(true); sg != "" {
+			for kk, v := range tr.stats {
+				res.stats[kk] += v
+			}
+			return fail(sg, "%s", wh)
+		}
+		if equal {
+			res.stats["smp_equal"]++
+		} else {
+			res.stats["smp_unequal"]++
 		}
 	}
-	for _, p := range []string{"a", "b"} {
-		s[p].chg, s[p].errs, s[p].dlv = nil, nil, nil
-		w.conv[p].FragmentSize = randFragSize(r)
-	}
-	ms, err := w.conv[ini].Authenticate(question, secI)
-	if err != nil {
-		return fail("otr-smp-outcome", "Authenticate failed: %v", err)
-	}
-	w.post(ini, ms)
-	w.randomDrain(r, s, 200000)
-	if fmt.Sprint(s[rsp].chg) != "[smpneeded]" {
-		return fail("otr-smp-outcome", "responder saw %v instead of SMPSecretNeeded (errors %v)", s[rsp].chg, s[rsp].errs)
-	}
-	if w.conv[rsp].SMPQuestion() != question {
-		return fail("otr-smp-outcome", "SMPQuestion %q, sent %q", w.conv[rsp].SMPQuestion(), question)
-	}
-	ms, err = w.conv[rsp].Authenticate("", secR)
-	if err != nil {
-		return fail("otr-smp-outcome", "responder's Authenticate failed: %v", err)
-	}
-	w.post(rsp, ms)
-	w.randomDrain(r, s, 200000)
-	for _, p := range []string{"a", "b"} {
-		got := strings.Join(s[p].chg, ",")
-		complete := strings.Contains(got, "smpcomplete")
-		failed := strings.Contains(got, "smpfailed")
-		if equal && (!complete || failed) {
-			return fail("otr-smp-outcome", "equal secrets (%d bytes, question %q): %s saw [%s], errors %v", len(secI), question, p, got, s[p].errs)
-		}
-		if !equal && (complete || !failed) {
-			return fail("otr-smp-outcome", "different secrets: %s saw [%s], errors %v", p, got, s[p].errs)
-		}
-		if len(s[p].dlv) > 0 {
-			return fail("otr-unexpected-delivery", "%s's user was handed %d messages during SMP", p, len(s[p].dlv))
-		}
-	}
-	if equal {
-		res.stats["smp_equal"]++
-	} else {
-		res.stats["smp_unequal"]++
+	for kk, v := range tr.stats {
+		res.stats[kk] += v
 	}
 	if x := exchange("data-after-smp", 1+r.Intn(3)); x != nil {
 		return *x
@@ -349,13 +384,17 @@ func runRandom(t *testing.T, out *vutil.Out) {
 	}
 	wg.Wait()
 	tot := map[string]int{}
+	perSig := map[string]int{}
 	for i, r := range results {
 		out.Case(r.key + fmt.Sprint(i))
 		for k, v := range r.stats {
 			tot[k] += v
 		}
 		if r.sig != "" {
-			out.Violation(r.sig, r.what, map[string]any{"scenario_seed": vutil.Seed()*1000003 + int64(i), "driver": "TestRandom"})
+			perSig[r.sig]++
+			if perSig[r.sig] <= 3 { // a few witnesses per signature, so that no signature is crowded out of the result
+				out.Violation(r.sig, r.what, map[string]any{"scenario_seed": vutil.Seed()*1000003 + int64(i), "driver": "TestRandom"})
+			}
 			t.Errorf("%s: %s", r.sig, r.what)
 		}
 		if i < 3 {
